@@ -412,9 +412,13 @@ class FileDownloader(Resource, object):
                         last = filesize - 1
                     else:
                         last = int(last)
-
-                if last < first:
-                    raise ValueError
+                        # only a last-byte-pos that is present and less
+                        # than first-byte-pos makes the spec invalid; an
+                        # open-ended or suffix range starting at or beyond
+                        # the end of the file is unsatisfiable (416), not
+                        # something to ignore
+                        if last < first:
+                            raise ValueError
 
                 return (first, last)
 
